@@ -126,6 +126,10 @@ def _merge_case(R, unit, only):
                     aggarg = None
                     if agg:
                         aggarg = {c: ((lambda x: x.sum() + 1000) if f == "CALLABLE:sum+1000" else f) for c, f in agg.items()}
+                    if kk % 2 == 0:
+                        # every other case: the output path already holds the merge of OTHER inputs (a previous run's result)
+                        R.cls("merge:output-path-already-holds-a-cooler")
+                        cooler.merge_coolers(out, [pool_uri((seq[0] + 3) % 8, symm, tab), pool_uri((seq[0] + 5) % 8, symm, tab)], mergebuf=buf, columns=list(cols))
                     cooler.merge_coolers(out, uris, mergebuf=buf, columns=list(cols), agg=aggarg)
                 except Exception as e:
                     R.mismatch("merge-raises:" + type(e).__name__, inner, f"{e!s:.300}")
